@@ -72,7 +72,17 @@ func (e *EntityUID) UnmarshalCedar(data []byte) error {
 		return errInvalidUID
 	}
 
-	id, _, err := rust.Unquote([]byte(quoted[1:len(quoted)-1]), false)
+	body := quoted[1 : len(quoted)-1]
+	// a double quote inside the id must be escaped; an unescaped one would have ended the string literal
+	for i := 0; i < len(body); i++ {
+		if body[i] == '\\' {
+			i++
+		} else if body[i] == '"' {
+			return errInvalidUID
+		}
+	}
+
+	id, _, err := rust.Unquote([]byte(body), false)
 	if err != nil {
 		return errInvalidUID
 	}
